@@ -7,7 +7,7 @@ use std::collections::BTreeSet;
 
 use shred::{ResourceId, World};
 
-pub const NWT: usize = 5;
+pub const NWT: usize = 6;
 pub const NWD: usize = 3;
 
 #[derive(Default)]
@@ -263,6 +263,32 @@ impl Default for Heap {
     }
 }
 
+/// plain data without drop glue (`needs_drop` is false): not tracked, identity is the value
+pub struct Plain {
+    pub id: u64,
+    pub pad: [u32; 3],
+}
+impl Default for Plain {
+    fn default() -> Self {
+        Plain::make(999_000)
+    }
+}
+impl Tracked for Plain {
+    const TY: u8 = 5;
+    fn make(id: u64) -> Self {
+        Plain {
+            id,
+            pad: [id as u32 ^ 0x1111, id as u32 ^ 0x2222, id as u32 ^ 0x3333],
+        }
+    }
+    fn id(&self) -> u64 {
+        self.id
+    }
+    fn pattern_ok(&self) -> bool {
+        self.pad == [self.id as u32 ^ 0x1111, self.id as u32 ^ 0x2222, self.id as u32 ^ 0x3333]
+    }
+}
+
 #[macro_export]
 macro_rules! with_wt {
     ($t:expr, $T:ident, $body:expr) => {
@@ -285,6 +311,10 @@ macro_rules! with_wt {
             }
             4 => {
                 type $T = $crate::wtypes::Heap;
+                $body
+            }
+            5 => {
+                type $T = $crate::wtypes::Plain;
                 $body
             }
             _ => panic!("harness: world type index out of range"),
